@@ -535,6 +535,7 @@ func checkC09(c *Ctx) {
 	c.Decides("keying of the tube tables, atomicity of id allocation, single offer, framing of unreliable messages, parity split, payload ownership, the quarantine / last-ack multipliers")
 	c.NotDecided("late frames of a closed tube reaching a successor with the same id (history-dependent); interleavings; the two ends' RTT estimates differing")
 	c09R7(c)
+	c09R8(c)
 
 	fRel := P.Field("tubes", "Muxer", "reliableTubes")
 	fUnrel := P.Field("tubes", "Muxer", "unreliableTubes")
@@ -1504,4 +1505,85 @@ func wholeCopyOf(v ssa.Value, f *types.Var) bool {
 		return endsInField(call.Call.Args[0], f, false)
 	}
 	return false
+}
+
+// c09R8: a read takes a whole message or its head, never leaves a tail for later. An unreliable tube
+// delivers datagrams: what does not fit the caller's buffer is dropped with an error (as net.UDPConn does).
+// A reader that keeps the remainder of a message in the tube and hands it out on the next call turns one
+// message into two "messages" and shifts every later boundary. Rule: in the methods of *Unreliable, a value
+// taken from the receive queue (u.recv) is never stored — itself or re-sliced — into a field.
+func c09R8(c *Ctx) {
+	P := c.P
+	const rule = "C09.R8"
+	c.Rule(rule, "no fragment is kept for later: in the methods of tubes.Unreliable a message taken from the receive queue is never stored, whole or re-sliced, into a field of the tube (a retained tail is delivered by the next read as if it were a message of its own) (def-use)")
+	fRecv := P.Field("tubes", "Unreliable", "recv")
+	if fRecv == nil {
+		c.Undecided(rule, "tubes.Unreliable.recv", "field not found")
+		return
+	}
+	nTakes := 0
+	for _, f := range P.ModuleFuncs("tubes") {
+		if f.Blocks == nil {
+			continue
+		}
+		eachInstr(f, func(ins ssa.Instruction) {
+			var msg ssa.Value
+			switch x := ins.(type) {
+			case *ssa.Call:
+				if fn := calleeFunc(&x.Call); fn != nil && fn.Name() == "Recv" && len(x.Call.Args) >= 1 && hasField(x.Call.Args[0], fRecv) {
+					msg = x
+				}
+			case *ssa.UnOp:
+				if x.Op == token.ARROW && hasField(x.X, fRecv) {
+					msg = x
+				}
+			}
+			if msg == nil {
+				return
+			}
+			nTakes++
+			cons := fmt.Sprintf("%s#take%d", FuncName(f), nTakes)
+			var bad ssa.Instruction
+			seen := map[ssa.Value]bool{}
+			var follow func(v ssa.Value, depth int)
+			follow = func(v ssa.Value, depth int) {
+				if v == nil || depth > 6 || seen[v] || v.Referrers() == nil {
+					return
+				}
+				seen[v] = true
+				for _, r := range *v.Referrers() {
+					switch y := r.(type) {
+					case *ssa.Extract:
+						if isByteSlice(y.Type()) {
+							follow(y, depth+1)
+						}
+					case *ssa.Slice:
+						follow(y, depth+1)
+					case *ssa.Phi:
+						follow(y, depth+1)
+					case *ssa.Store:
+						if y.Val == v {
+							if _, isField := y.Addr.(*ssa.FieldAddr); isField {
+								bad = y
+							} else if a, isAlloc := y.Addr.(*ssa.Alloc); isAlloc {
+								// a local variable: follow its loads
+								for _, rr := range *a.Referrers() {
+									if u, ok := rr.(*ssa.UnOp); ok && u.Op == token.MUL {
+										follow(u, depth+1)
+									}
+								}
+							}
+						}
+					}
+				}
+			}
+			follow(msg, 0)
+			if bad != nil {
+				c.Fail(rule, cons, P.InstrPos(bad), "part of a message taken from the receive queue is kept in a field of the tube: the next read hands out the tail of that message as a message of its own, and every later boundary is shifted")
+			} else {
+				c.OK(rule, cons, P.InstrPos(ins), "the message is handed to the caller and not retained")
+			}
+		})
+	}
+	c.Floor(rule, "takes from Unreliable.recv", nTakes, 1)
 }
